@@ -823,7 +823,8 @@ pub fn streamsm(trace: &[Value]) -> Vec<Value> {
             }
             "Rx" if e["kind"] == "conn" => {
                 let genuine = matches!(e["cls"].as_str().unwrap_or(""), "gen" | "dup" | "spoof" | "inject");
-                if !genuine {
+                // a closed connection still counts the frames of what it receives, but acts on none
+                if !genuine || e["pre"]["st"].as_i64().unwrap_or(0) >= 2 {
                     continue;
                 }
                 let dfr = &e["dfr"];
